@@ -42,7 +42,14 @@ Programs == <<
   EList(<<ESpread(L), ESpread(ELit(Str(<<12, 13>>))), EBin("add", ELit(Str(<<12>>)), ELit(Str(<<13>>)))>>),
   EBin("coalesce", EIdx(L, N(7)), EBin("and", EBin("lt", Call1(F, N(1)), N(20)), EUn("not", ELit(Bool(FALSE))))),
   ECall(EId("max"), <<ESpread(EBin("via", L, F)), EUn("neg", Call1(F, N(1)))>>),
-  EBin("eq", EList(<<ERec(<<RStatic(<<12>>, L)>>), ELit(Null)>>), EList(<<ERec(<<RStatic(<<12>>, EList(<<N(1), N(2), N(3)>>))>>), ELit(Null)>>))
+  EBin("eq", EList(<<ERec(<<RStatic(<<12>>, L)>>), ELit(Null)>>), EList(<<ERec(<<RStatic(<<12>>, EList(<<N(1), N(2), N(3)>>))>>), ELit(Null)>>)),
+  \* arithmetic whose operands are literals: the result may not depend on an operand being written in place or through a name
+  EBin("pow", EBin("div", N(107), N(100)), N(30)),
+  EList(<<EBin("pow", EBin("div", N(11), N(10)), N(10)), EBin("pow", EBin("div", N(17), N(10)), N(7)), EBin("pow", EBin("div", N(93), N(100)), N(25)),
+          EBin("mod", EBin("div", N(22), N(7)), N(3)), EBin("div", EBin("mul", EBin("div", N(1), N(3)), N(3)), N(49))>>),
+  ECall(ELam(<<Req("x")>>, EBin("pow", X, N(12))), <<EBin("div", N(105), N(100))>>),
+  \* sort on values with no natural order, written in place
+  ECall(EId("sort"), <<EList(<<ERec(<<RStatic(<<12>>, N(2))>>), ERec(<<RStatic(<<12>>, N(1))>>), EList(<<ELit(Null)>>), EList(<<ELit(Null)>>)>>)>>)
 >>
 
 \* ------------------------------------------------------------------ positions
@@ -97,7 +104,8 @@ Orig == Eval(P, Env0, 0).v
 ProjV(v) == IF v.t = "err" THEN [t |-> "err"] ELSE v
 
 LetAbstractionLaw == Abstractable => Eval(Abstracted, RunAll(<<EAsg("t0", Sub)>>, Env0), 0).v = Orig
-TwiceLaw == Eval(EList(<<P, P>>), Env0, 0).v = List(<<Orig, Orig>>)
+\* (a result the model leaves open - inexact arithmetic - is Unk, also for everything built from it)
+TwiceLaw == LET t == Eval(EList(<<P, P>>), Env0, 0).v IN t = Unk \/ t = List(<<Orig, Orig>>)
 \* evaluating never changes the root scope (these programs contain no top-level assignment)
 NoEffectLaw == Eval(P, Env0, 0).env = Env0
 
